@@ -402,3 +402,9 @@ def run(ctx):
     # R03.11 = R04.6: the disparity the level-wise assembly relies on (blocks only `disparity` levels down) is established by
     # the marking closure of refine()
     ctx.shared(c04.r04_6, 'R04.6', 'R03.11')
+    # R03.16 = R05.11: thb_to_hb composes the truncation of EVERY level (no exit / skip under "this level has no active functions":
+    # truncate_one_level(k) truncates all coarser functions with respect to level k+1); R03.17 = R08.3: options of assemble()
+    # reach the hierarchical branch under their own names (wave 8: bfuns dropped, args passed in its position)
+    ctx.shared(c05.r05_11, 'R05.11', 'R03.16')
+    import rules.C08 as c08
+    ctx.shared(c08.r08_3, 'R08.3', 'R03.17')
